@@ -65,3 +65,8 @@ def repo_path(rel):
 def read(rel):
     with open(repo_path(rel), encoding='utf8') as f:
         return f.read()
+
+
+class Unanchored(LookupError):
+    """a contract addresses a function / statement region / table of the source that the current tree does not have in that shape: the
+    obligations of that contract cannot be generated from this tree.  Never a violation; reported as UNANCHORED (see vlib/report.py)."""
